@@ -365,6 +365,12 @@ ROUND12 = {
  "C15": "A listing over 300 names overtaken by two removals under delay-bounded schedules.",
  "C16": "Chosen ids that are near misses of the daemon's own id.",
 }
+ROUND13 = {
+ "C02": "Non-text name variants independent of the serializer rotation; the member's own name as bytes under the binary serializers.",
+ "C05": "Short foreign messages from a peer that stays connected, in the middle of a session.",
+}
+for _k, _v in ROUND13.items():
+    ROUND12[_k] = (ROUND12[_k] + " " + _v) if _k in ROUND12 else _v
 for _k, _v in ROUND12.items():
     ROUND11[_k] = (ROUND11[_k] + " " + _v) if _k in ROUND11 else _v
 for _k, _v in ROUND11.items():
